@@ -76,7 +76,7 @@ def big_points(name, tier):
             for c in CLS:
                 add({'n': n, 'k': k, 'c': c0, 'cls': c})
     elif name == 'c02.tseitin':
-        for n, E in ((11, cycle(11)), (12, path(12)), (17, star(17)), (10, mixed(10)), (10, star(10)), (11, star(11)), (13, star(13))):
+        for n, E in ((11, cycle(11)), (12, path(12)), (10, mixed(10)), (10, star(10)), (11, star(11)), (13, star(13)), (10, complete(10)), (11, complete(11))):
             for pat in (0, 1):
                 ch = [0] * n
                 if pat:
